@@ -39,7 +39,119 @@ pub fn gen_write_faults(g: &mut G) -> (ConnFaults, &'static str) {
     (f, name)
 }
 
+/// first connection of the "send the prepared request again after a failure" family: resets the
+/// connection once `after` request bytes have arrived (or the head is complete, whichever is later)
+struct ResetPeer {
+    got: usize,
+    after: usize,
+    done: bool,
+}
+impl attosim::Peer for ResetPeer {
+    fn on_bytes(&mut self, c: &mut dyn attosim::Ctl, data: &[u8]) {
+        self.got += data.len();
+        if !self.done && self.got >= self.after {
+            self.done = true;
+            c.rst_at(0);
+        }
+    }
+    fn as_any(&mut self) -> &mut dyn std::any::Any {
+        self
+    }
+}
+
+/// A prepared request whose first send fails mid-upload is sent again: the second connection must
+/// carry the same faithful request (state left behind by the failed attempt must not leak into it).
+fn resend_family(g: &mut G, ctx: &RunCtx) -> RunReport {
+    use std::sync::{Arc, Mutex};
+    let mut plan: ReqPlan = reqgen::gen_request(g, if ctx.thorough { 300_000 } else { 120_000 });
+    if g.chance(1, 2) {
+        // bodies with internal read state: multipart forms with several sizeable file parts, files
+        plan.body = if g.chance(2, 3) {
+            reqgen::BodySpec::Multipart(reqgen::gen_form(g, 120_000, true))
+        } else {
+            reqgen::BodySpec::File(crate::gen::gen_bytes(g.size(200_000).max(1), 1, g.subseed()), 0)
+        };
+        g.probe("resend-stateful-body");
+    }
+    let after = match g.below(4) {
+        0 => 1,
+        1 => g.range(1, 400) as usize,
+        2 => g.size(100_000).max(1),
+        _ => 8192 * g.range(1, 6) as usize + g.usize_below(3),
+    };
+    let sim = attosim::Sim::new(ctx.sim_config());
+    let ip: std::net::IpAddr = bodyx::HOST_IP.parse().unwrap();
+    let seen = Arc::new(Mutex::new(crate::peers::Seen::default()));
+    let seen2 = seen.clone();
+    let mut n = 0usize;
+    sim.add_listener(
+        ip,
+        80,
+        attosim::ConnectBehaviour::Accept { latency_ns: attosim::NS_PER_MS },
+        Some(Box::new(move |_i| {
+            n += 1;
+            if n == 1 {
+                Box::new(ResetPeer { got: 0, after, done: false })
+            } else {
+                Box::new(crate::peers::HttpPeer::new(
+                    Arc::new(|_r, _c| {
+                        let mut s = Script::default();
+                        s.acts.push(Act::Send(b"HTTP/1.1 200 OK\r\nContent-Length: 2\r\n\r\nok".to_vec()));
+                        s.acts.push(Act::Fin);
+                        s
+                    }),
+                    seen2.clone(),
+                ))
+            }
+        })),
+    );
+    let url = plan.url(&format!("http://{}", bodyx::HOST_IP));
+    let out = sim.run(|| {
+        let rb = attohttpc::RequestBuilder::new(attohttpc::Method::from_bytes(plan.method.as_bytes()).unwrap(), &url).read_timeout(std::time::Duration::from_secs(5));
+        plan.send_prepared(rb, 2)
+    });
+    let mut stats = Stats::default();
+    stats.absorb(&out.history);
+    let verdict = match &out.result {
+        None => violation("hang", "torn down"),
+        Some(Err(m)) => violation(format!("panic:{}:{}", crate::props::c02::panic_site(m), plan.body_name()), m.clone()),
+        Some(Ok(res)) => {
+            if res.len() < 2 || out.history.conns.len() < 2 {
+                // preparing failed, or the first attempt never failed: nothing to judge here
+                Verdict::Pass
+            } else if res[0].is_ok() {
+                Verdict::Pass
+            } else {
+                let bytes = out.history.conns[1].client_bytes();
+                match parse_request(&bytes) {
+                    ReqParse::Incomplete => violation(format!("resend:request-incomplete:{}", plan.body_name()), format!("second send wrote {} bytes that do not form a complete request (results {:?}; first connection was reset after {} bytes)", bytes.len(), res, after)),
+                    ReqParse::Malformed(m) => violation(format!("resend:request-malformed:{}", plan.body_name()), format!("{} (results {:?})", m, res)),
+                    ReqParse::Complete(r) => match reqgen::check_request(&plan, &r, bytes.len() - r.total_len, None, true) {
+                        Err((c, m)) => violation(format!("resend:{}", c), format!("second send after a failed first one (connection reset after {} bytes): {}", after, m)),
+                        Ok(()) => match &res[1] {
+                            Ok(_) => Verdict::Pass,
+                            Err(e) => violation(format!("resend:send-failed:{}:{}", e, plan.body_name()), format!("second send failed with {}", e)),
+                        },
+                    },
+                }
+            }
+        }
+    };
+    RunReport {
+        verdict,
+        shape: format!("resend/{}/{}/after={}", plan.method, plan.body_name(), after.min(100_000) / 8192),
+        nontrivial: true,
+        stats,
+        sched_tape: out.sched_tape,
+        describe: if ctx.describe { format!("resend family: first connection reset after {} request bytes; url={:?} plan={}", after, url, crate::httpref::short(format!("{:?}", plan).as_bytes())) } else { String::new() },
+    }
+}
+
 pub fn scenario(g: &mut G, ctx: &RunCtx) -> RunReport {
+    if g.chance(1, 6) {
+        g.probe("prepared-request-sent-again-after-failure");
+        return resend_family(g, ctx);
+    }
     let plan: ReqPlan = reqgen::gen_request(g, if ctx.thorough { 200_000 } else { 40_000 });
     let (faults, fname) = gen_write_faults(g);
     let mut script = Script::default();
